@@ -11,6 +11,18 @@ thread_local! {
     static INJECTIONS: RefCell<Vec<(u64, String)>> = RefCell::new(vec![]);
     static CHANNEL:    RefCell<Option<Sender<DebugMessage>>> = RefCell::new(None);
     static EVALUATOR_ERRORS: Cell<u64> = Cell::new(0);
+    static NIL_BODY_CALLS: Cell<u64> = Cell::new(0);
+}
+
+// calls of closures whose body is the empty list since the last reset
+pub fn verif_note_call(body_is_nil: bool) {
+    if body_is_nil {
+        NIL_BODY_CALLS.with(|e| e.set(e.get() + 1));
+    }
+}
+
+pub fn verif_nil_body_calls(reset: bool) -> u64 {
+    NIL_BODY_CALLS.with(|e| { let n = e.get(); if reset { e.set(0); } n })
 }
 
 // signals raised by the evaluator itself (unbound symbol, bad operator, closure arity) since the last reset
